@@ -357,6 +357,9 @@ func runC17(chk *vcommon.Check, thorough bool) {
 	if chk.Violations() == 0 {
 		realFrequencySnapshot(chk)
 	}
+	if chk.Violations() == 0 {
+		largeCommitteeSnapshot(chk)
+	}
 	chk.Set("evaluations", evals)
 	chk.Set("corruptions_rejected", rejected)
 	chk.Set("exhaustive", true)
@@ -393,4 +396,69 @@ func realFrequencySnapshot(chk *vcommon.Check) {
 		chk.Violation("imported-store-differs:latest", "real-frequency store: latest after import", map[string]any{"kind": "c17-real"})
 	}
 	chk.Set("real_frequency_roundtrip", true)
+}
+
+// largeCommitteeSnapshot: a store whose initial power table is as large as the codecs allow (8000 members with
+// 48-byte keys: the header block alone is several hundred KiB) must export and import like any other.
+func largeCommitteeSnapshot(chk *vcommon.Check) {
+	var big gpbft.PowerEntries
+	for i, e := range table0() {
+		e.Power = gpbft.NewStoragePower(int64(1_000_000 * (3 - i)))
+		big = append(big, e)
+	}
+	for id := uint64(100); len(big) < 8000; id++ {
+		key := bytes.Repeat([]byte{byte(id), byte(id >> 8), 0x5a}, 16)
+		big = append(big, gpbft.PowerEntry{ID: gpbft.ActorID(id), Power: gpbft.NewStoragePower(1), PubKey: key})
+	}
+	big = vfix.Canon(big)
+	rep := map[string]any{"kind": "c17-large", "members": len(big)}
+	st, err := certstore.CreateStore(bg, dssync.MutexWrap(datastore.NewMapDatastore()), 0, big)
+	if err != nil {
+		chk.Violation("export-failed", "large committee: CreateStore: "+err.Error(), rep)
+		return
+	}
+	tc := vfix.TableCID(big)
+	head := vfix.TipSet("gen", 0, tc)
+	var crts []*certs.FinalityCertificate
+	for i := uint64(0); i < 2; i++ {
+		c := &gpbft.ECChain{TipSets: []*gpbft.TipSet{head, vfix.TipSet("L", head.Epoch+1, tc)}}
+		// (signatures are not what snapshots are about: neither the store nor the importer verifies them)
+		j := &gpbft.Justification{Vote: gpbft.Payload{Instance: i, Phase: gpbft.DECIDE_PHASE, SupplementalData: gpbft.SupplementalData{PowerTable: tc}, Value: c}, Signers: vfix.Bitfield([]int{0, 1, 2}), Signature: bytes.Repeat([]byte{7}, 96)}
+		crt, err := certs.NewFinalityCertificate(certs.MakePowerTableDiff(big, big), j)
+		if err != nil {
+			chk.Violation("export-failed", "large committee: NewFinalityCertificate: "+err.Error(), rep)
+			return
+		}
+		if err := st.Put(bg, crt); err != nil {
+			chk.Violation("export-failed", "large committee: Put: "+err.Error(), rep)
+			return
+		}
+		crts = append(crts, crt)
+		head = c.Head()
+	}
+	var buf bytes.Buffer
+	if _, _, err := st.ExportLatestSnapshot(bg, &buf); err != nil {
+		chk.Violation("export-failed", "large committee: "+err.Error(), rep)
+		return
+	}
+	ds, err, p := importInto(buf.Bytes(), &manifest.Manifest{InitialInstance: 0, InitialPowerTable: tc}, 0)
+	if err != nil || p != nil {
+		chk.Violation("import-of-honest-snapshot-fails", fmt.Sprintf("store with %d members (snapshot of %d bytes): import failed: %v %v", len(big), buf.Len(), err, p), rep)
+		return
+	}
+	st2, err := certstore.OpenStore(bg, ds)
+	if err != nil {
+		chk.Violation("import-of-honest-snapshot-fails", fmt.Sprintf("store with %d members: OpenStore after import: %v", len(big), err), rep)
+		return
+	}
+	for i := uint64(0); i <= 2; i++ {
+		if a, e1 := st2.GetPowerTable(bg, i); e1 != nil || !a.Equal(big) {
+			chk.Violation("imported-store-differs:pt", fmt.Sprintf("store with %d members: power table %d after import: %v", len(big), i, e1), rep)
+			return
+		}
+	}
+	if l := st2.Latest(); l == nil || l.GPBFTInstance != 1 {
+		chk.Violation("imported-store-differs:latest", "large committee: latest after import", rep)
+	}
+	chk.Set("large_committee_roundtrip_bytes", buf.Len())
 }
